@@ -1060,6 +1060,7 @@ class HandHistory(Iterable[State]):
         index = 0
         actions = ''
         raw_hole_cards = [['', ''] for _ in self.starting_stacks]
+        hole_card_counts = [0 for _ in self.starting_stacks]
         hole_cards = ''
         board_cards = ''
         match_state = ''
@@ -1125,8 +1126,13 @@ class HandHistory(Iterable[State]):
                     yield ingress()
 
                 if isinstance(operation, HoleDealing):
+                    offset = hole_card_counts[operation.player_index]
+                    hole_card_counts[operation.player_index] += len(
+                        operation.cards,
+                    )
+
                     if operation.player_index == position:
-                        for i, card in enumerate(operation.cards):
+                        for i, card in enumerate(operation.cards, offset):
                             if card:
                                 raw_hole_cards[position][i] = repr(card)
                 elif isinstance(operation, HoleCardsShowingOrMucking):
@@ -1189,6 +1195,7 @@ class HandHistory(Iterable[State]):
         index = 0
         actions = ''
         raw_hole_cards = [['', ''] for _ in self.starting_stacks]
+        hole_card_counts = [0 for _ in self.starting_stacks]
         board_cards = ''
 
         for state in self:
@@ -1204,7 +1211,12 @@ class HandHistory(Iterable[State]):
                     amount = -state.payoffs[operation.player_index]
                     actions += f'r{amount}'
                 elif isinstance(operation, HoleDealing):
-                    for i, card in enumerate(operation.cards):
+                    offset = hole_card_counts[operation.player_index]
+                    hole_card_counts[operation.player_index] += len(
+                        operation.cards,
+                    )
+
+                    for i, card in enumerate(operation.cards, offset):
                         if card:
                             raw_hole_cards[operation.player_index][i] = repr(
                                 card,
